@@ -117,6 +117,9 @@ def scenario_from_cluster_hist(scn, topo, tables, menus, hist, fols, queries=())
             cmds.append({"a": "Connect", "f": f, "l": l})
     cmds.append({"a": "Settle", "id": "final"})
     settles.append({"id": "final", "n": len(inserted), "converged": True})
+    if queries:
+        for l in range(L):
+            cmds.append({"a": "Drain", "l": l})       # every follower has a query handler registered
     for qi, (sql, mem) in enumerate(queries):
         cmds.append({"a": "Query", "l": qi % L, "sql": sql, "mem": mem, "id": "q%d" % qi})
     return {"scn": scn, "opts": {"tickMs": 1000, "stream": STREAM}, "tables": [t.define() for t in tables],
@@ -195,6 +198,11 @@ def judge_cluster(pid, V, sc, lines, tables, stats, judge_queries):
             if l["a"] != "ClusterQuery":
                 continue
             stats["queries"] += 1
+            st_ = l.get("stats") or {}
+            if st_.get("MissingPartitions") or st_.get("NumSuccessfulPartitions", 0) < st_.get("NumPartitions", 0):
+                # the cluster says the result is incomplete (C13): nothing to compare
+                stats["queries_reported_incomplete"] = stats.get("queries_reported_incomplete", 0) + 1
+                continue
             key = lambda r: json.dumps({"k": r["k"], "p": r["p"], "v": r["v"]}, sort_keys=True)
             ordered = "ORDER BY" in l["sql"]
             limited = "LIMIT" in l["sql"] and not ordered
@@ -299,21 +307,55 @@ def cluster_check(args, pid, judge_queries, topos, quick_n, thorough_n, text, no
         traces = common.run_shards(bins["zvcluster"], [strip(s) for s in scenarios], os.path.join(work, "run"),
                                    nproc=max(1, common.NPROC // 2), timeout=1500)
         print("[%s] ran at %.1fs" % (pid, time.time() - t0), flush=True)
-        stats = {"harness_errors": 0, "settles": 0, "converged_checked": 0, "queries": 0, "queries_with_rows": 0}
+        stats = {"harness_errors": 0, "settles": 0, "converged_checked": 0, "queries": 0, "queries_with_rows": 0, "queries_reported_incomplete": 0}
         by_id = {s["scn"]: s for s in scenarios}
         faults = 0
-        for scn, lines in traces.items():
-            sc = by_id[scn]
-            tabs = [Table(d["name"], fields=d["abs"]["fs"][1:], where=d["abs"]["w"],
+        def tabs_of(sc):
+            return [Table(d["name"], fields=d["abs"]["fs"][1:], where=d["abs"]["w"],
                           group=[g.strip() for g in d["sql"].split("GROUP BY")[1].split(",") if "period" not in g],
                           res=int(re.search(r"period\((\d+)s\)", d["sql"]).group(1)), partition_by=d.get("partitionBy") or ())
                     for d in sc["tables"]]
-            judge_cluster(pid, V, sc, lines, tabs, stats, judge_queries)
+        suspects = {}
+        for scn, lines in traces.items():
+            sc = by_id[scn]
+            V1 = Verdict(pid)
+            judge_cluster(pid, V1, sc, lines, tabs_of(sc), stats, judge_queries)
+            V.notes += V1.notes
+            if V1.violations:
+                suspects[scn] = V1.violations
             faults += sum(1 for c in sc["cmds"] if c["a"] in ("Cut", "CrashFollower", "RestartLeader", "RestoreFollower"))
+        # A verdict needs a behaviour of the real system that can be shown again: every
+        # scenario with a mismatch is executed twice more, each in a process of its own;
+        # the mismatch counts if it shows again (timing-dependent one-off mismatches of
+        # the in-process cluster are reported as unreproduced, never as a violation).
+        unreproduced = 0
+        if suspects and not args.replay:
+            names = sorted(suspects)[:24]
+            again = []
+            for k in (1, 2):
+                again += [dict(strip(by_id[n]), scn="%s~%d" % (n, k)) for n in names]
+            t2 = common.run_shards(bins["zvcluster"], again, os.path.join(work, "rerun"), nproc=max(1, min(len(again), common.NPROC // 2)), timeout=1500)
+            scratch_stats = {k: 0 for k in stats}
+            for n in names:
+                shown = 0
+                for k in (1, 2):
+                    Vk = Verdict(pid)
+                    judge_cluster(pid, Vk, dict(by_id[n], scn="%s~%d" % (n, k)), t2.get("%s~%d" % (n, k), []), tabs_of(by_id[n]), scratch_stats, judge_queries)
+                    shown += bool(Vk.violations)
+                if shown:
+                    V.violations += suspects[n]
+                else:
+                    unreproduced += 1
+                    V.notes.append("%s: a mismatch (%s) did not show again in 2 re-executions of the scenario: not counted"
+                                   % (n, suspects[n][0][1][:160]))
+        else:
+            for n in suspects:
+                V.violations += suspects[n]
+        cov["unreproduced_mismatches"] = unreproduced
         cov.update({"traces_validated_against_impl": 0, "replayed_behaviours": len(scenarios), "fault_steps": faults,
                     "settle_points_checked": stats["settles"], "converged_states_checked": stats["converged_checked"],
                     "cluster_queries_compared": stats["queries"], "cluster_queries_with_rows": stats["queries_with_rows"],
-                    "harness_errors": stats["harness_errors"],
+                    "harness_errors": stats["harness_errors"], "queries_reported_incomplete": stats["queries_reported_incomplete"],
                     "samples": [{"scn": s["scn"], "topo": s["topo"], "partitionBy": s.get("tabs_variant"),
                                  "actions": [c["a"] + (":" + c.get("f", "") if c.get("f") else "") for c in s["cmds"]][:40]} for s in scenarios[:2]]})
         rc = V.finish()
